@@ -951,6 +951,8 @@ def sym_method(I, obj, name, args, kwargs):
             return mk_str(out)
         if name == "__format__":
             return (yield from format_(I, obj, args[0] if args else ""))
+        if name in ("decode", "encode"):
+            return obj
         raise X.Unsupported(f"str.{name} on symbol")
     if isinstance(obj, SBytes):
         if name == "decode":
